@@ -143,10 +143,27 @@ func (w *RegWorld) Apply(op string) (string, []Violation) {
 			}
 			result = "ok"
 		} else {
-			if h.state == "dead" {
-				return "skip", nil // deleting through a handle of an already deleted bucket: spec-silent
-			}
 			st := w.open[h.name]
+			if h.state == "dead" || (st != nil && st.gen != h.store) {
+				// CloseAndDelete (again) through a handle whose bucket has already been deleted. What the call
+				// itself answers is spec-silent; what it may not do is touch any OTHER bucket: one that has
+				// since been created under the same name or at the same URL and is open (the probe below
+				// checks every open handle, the registry and the directories). A bucket at the same URL that
+				// exists only on disk (all handles closed) cannot be told apart by anyone: skipped.
+				otherOpenAtURL := false
+				for _, o := range w.open {
+					if o.url == h.url {
+						otherOpenAtURL = true
+					}
+				}
+				if h.url != "mem" && w.hasDisk[h.url] && !otherOpenAtURL {
+					return "skip", nil
+				}
+				_ = h.b.CloseAndDelete(ctx)
+				h.state = "dead"
+				w.probe(c)
+				return "stale", c.out
+			}
 			if st == nil && h.url != "mem" && w.hasDisk[h.url] && w.diskGen[h.url] == h.store {
 				// the on-disk bucket this handle belonged to was shut down by its last Close and nobody has
 				// touched the directory since: CloseAndDelete through the (closed) handle still removes the data
@@ -159,8 +176,8 @@ func (w *RegWorld) Apply(op string) (string, []Violation) {
 				result = "ok"
 				break
 			}
-			if st == nil || st.gen != h.store {
-				return "skip", nil // handle of a store that was re-created or replaced: spec-silent
+			if st == nil {
+				return "skip", nil // closed handle of an in-memory bucket that is gone, or similar: spec-silent
 			}
 			err := h.b.CloseAndDelete(ctx)
 			if err != nil {
@@ -265,6 +282,9 @@ func (w *RegWorld) probe(c *checker) {
 	for _, u := range []string{"d1", "d2", "d3"} {
 		if w.dirExists(u) != w.hasDisk[u] {
 			c.add("C13", "directory", "directory %s exists=%v, want %v", u, w.dirExists(u), w.hasDisk[u])
+		}
+		if _, err := os.Stat(filepath.Join(w.cfg.Root, u, "rosmar.sqlite3")); w.hasDisk[u] && err != nil {
+			c.add("C13", "directory", "the database file of the bucket at %s is gone: %v", u, err)
 		}
 	}
 }
